@@ -118,9 +118,26 @@ def run(ck):
     if ck.require(len(heads) == 1 and fail_edges, "C13-R6", "reject loop and its failed() test found",
                   "%d loops, %d tests of the report in rollback_and_save_rej_files" % (len(heads), len(fail_edges)), rej.where()):
         head = heads[0]
-        starts = [e[1] for e in fail_edges]
-        r = cfg.reachable(rej, starts, disabled=nf_edges, blocked=wr_blocks)
-        okc = head not in r
+        # reachability with the range engine's variant tracking (an `Ok(Some(file))` built by a helper does not reach the `None` arm
+        # of the caller's match): block the not-failed edges, the NotFound edges of the creation and everything after the writer
+        from .. import ranges
+        notfail = set()
+        for g in guards.find_bool_guards(rej, lambda x: df.is_call(x, "FilePatchApplyReport::failed")):
+            notfail.add(g["false_edge"])
+        for g in guards.find_bool_guards(rej, lambda x: df.is_call(x, "FilePatchApplyReport::ok")):
+            notfail.add(g["true_edge"])
+        blocked_e = set(nf_edges) | notfail | {(wb, sx) for wb in wr_blocks for sx in rej.succs(wb)}
+        an = ranges.Analyzer(prog)
+        ins, outs, _ = an.analyze(rej, want_obligations=False, blocked_edges=blocked_e)
+        body = cfg.loops(rej)[head]
+        back = []
+        for pb in rej.preds()[head]:
+            if pb in body and ins[pb] is not None:
+                o = an.transfer_block(rej, ins[pb], pb)
+                es = an.edge_state(rej, o, pb, head)
+                if not es.dead and (pb, head) not in blocked_e:
+                    back.append(pb)
+        okc = not back
         ck.require(okc, "C13-R6", "every failed file patch of the rejected patch gets its reject written",
                    "after the report was found failed the loop can move on to the next entry without calling the reject writer, by a path "
                    "other than the NotFound answer of creating the reject (a reject is skipped although its directory may exist)", rej.where(),
